@@ -25,7 +25,7 @@ Json Plan::to_json(bool with_data) const {
 		fs.push(o);
 	}
 	j.set("files", fs);
-	j.set("target", target).set("pponly", pponly).set("via_stdin", via_stdin).set("dash_o", dash_o).set("stack_shift", stack_shift);
+	j.set("target", target).set("pponly", pponly).set("via_stdin", via_stdin).set("stdin_pipe", stdin_pipe).set("dash_o", dash_o).set("stack_shift", stack_shift);
 	j.set("placement", placement).set("gapmax", gapmax).set("fill", fill).set("free_policy", free_policy).set("realloc_policy", realloc_policy).set("zero_policy", zero_policy);
 	j.set("alloc_seed", hex64(alloc_seed)).set("chunk", chunk).set("outbuf", outbuf).set("io_seed", hex64(io_seed)).set("trip_seed", hex64(trip_seed));
 	Json fl = Json::arr();
@@ -66,6 +66,7 @@ bool Plan::from_json(const Json &j, Plan &p, const std::string &repo) {
 	p.target = (int)j.geti("target", 1);
 	p.pponly = j.getb("pponly");
 	p.via_stdin = j.getb("via_stdin");
+	p.stdin_pipe = j.getb("stdin_pipe");
 	p.dash_o = j.getb("dash_o");
 	p.stack_shift = (int)j.geti("stack_shift");
 	p.placement = (int)j.geti("placement");
@@ -95,7 +96,7 @@ bool Plan::from_json(const Json &j, Plan &p, const std::string &repo) {
 }
 
 bool Plan::is_null_schedule() const {
-	return !via_stdin && !dash_o && !stack_shift && !placement && !gapmax && !fill && !free_policy && !realloc_policy && !zero_policy && !chunk && !outbuf && faults.empty();
+	return !via_stdin && !stdin_pipe && !dash_o && !stack_shift && !placement && !gapmax && !fill && !free_policy && !realloc_policy && !zero_policy && !chunk && !outbuf && faults.empty();
 }
 
 // ------------------------------------------------------------ stress family
@@ -200,6 +201,70 @@ std::string stress_input(const std::string &fam, long n) {
 		for (long i = 0; i < n; i++) s += "\tint m" + std::to_string(i) + (i % 5 == 0 ? " : 3" : "") + ";\n";
 		s += "};\nstruct big b = { 1, 2 };\nint get(struct big *p) { return p->m" + std::to_string(n > 0 ? n - 1 : 0) + "; }\n";
 		if (n == 0) s = "struct e { int x; } b;\n";
+	} else if (fam == "macrorepl") {
+		// replacement list of n tokens, then the # operator: crosses the growth thresholds of the token array
+		s = "#define M(x)";
+		for (long i = 0; i < n; i++) s += " t" + std::to_string(i);
+		s += " #x\nM(a)\n#define N(x, y)";
+		for (long i = 0; i < n; i++) s += (i % 3 == 0 ? " x" : i % 3 == 1 ? " (y)" : " +");
+		s += "\nN(1, 2)\n";
+	} else if (fam == "strparts") {
+		s = "const char s[] =";
+		for (long i = 0; i < n; i++) s += " \"p" + std::to_string(i) + "\"";
+		s += " \"\";\n";
+	} else if (fam == "ctxdepth") {
+		s = "#define F0(x) x\n";
+		for (long i = 1; i <= n; i++) s += "#define F" + std::to_string(i) + "(x) F" + std::to_string(i - 1) + "(x) x\n";
+		s += "F" + std::to_string(n) + "(z)\n";
+	} else if (fam == "objmacros") {
+		for (long i = 0; i < n; i++) s += "#define O" + std::to_string(i) + " " + (i ? "O" + std::to_string(i - 1) + " + " : "") + std::to_string(i) + "\n";
+		s += "int v = O" + std::to_string(n > 0 ? n - 1 : 0) + ";\n";
+		if (n == 0) s = "int v;\n";
+	} else if (fam == "params") {
+		s = "int f(";
+		for (long i = 0; i < n; i++) s += std::string(i ? ", " : "") + (i % 4 == 3 ? "const char a" + std::to_string(i) + "[]" : i % 4 == 2 ? "double a" + std::to_string(i) : "int a" + std::to_string(i));
+		if (n == 0) s += "void";
+		s += ") { return " + std::string(n ? "a0" : "0") + "; }\nint g(void) { return f(";
+		for (long i = 0; i < n; i++) s += std::string(i ? ", " : "") + (i % 4 == 3 ? "\"s\"" : i % 4 == 2 ? "1.5" : std::to_string(i));
+		s += "); }\n";
+	} else if (fam == "escapes") {
+		s = "const char e[] = \"";
+		static const char *esc[] = {"\\n", "\\t", "\\x41", "\\101", "\\\\", "\\\"", "\\0", "\\a", "\\?", "\\'"};
+		for (long i = 0; i < n; i++) s += esc[i % 10];
+		s += "\";\nint c = '\\n' + '\\x7f' + L'\\377' + u'a' + U'b' + u8'c';\n";
+	} else if (fam == "errident") {
+		// a diagnostic that has to describe a very long token
+		s = "int x = 1 ";
+		s.append((size_t)n, 'q');
+		s += ";\n";
+	} else if (fam == "errstring") {
+		s = "int f(void) { return 1 \"";
+		for (long i = 0; i < n; i++) s += (char)('a' + i % 26);
+		s += "\"; }\n";
+	} else if (fam == "errnumber") {
+		s = "int y = 2 ";
+		for (long i = 0; i < n; i++) s += (char)('0' + i % 10);
+		s += ";\n";
+	} else if (fam == "errundeclared") {
+		s = "int f(void) { return ";
+		s.append((size_t)n, 'u');
+		s += "; }\n";
+	} else if (fam == "errmacroargs") {
+		s = "#define G(a, b) a b\nint z = G(";
+		for (long i = 0; i < n; i++) s += (i ? ", " : "") + std::to_string(i);
+		s += ");\n";
+	} else if (fam == "stringize") {
+		s = "#define S(x) #x\nconst char *p = S(";
+		s.append((size_t)n, 'k');
+		s += ");\nconst char *q = S(\"";
+		s.append((size_t)n, 'm');
+		s += "\" + 1 );\n";
+	} else if (fam == "eofpragma") {
+		s = "int a;\n#pragma ";
+		s.append((size_t)n, 'p');
+	} else if (fam == "eofdirective") {
+		static const char *d[] = {"#define X", "#define F(a", "#undef X", "#include", "#if 1", "#ifdef X", "#line 3", "#error x", "#", "#pragma once", "#define F(a) a\nF(1", "#define F(a) #a\nF(", "/* open comment", "// line comment", "\"open string", "'c", "#elif", "#else", "#endif"};
+		s = std::string("int a;\n") + d[n % 19];
 	} else {
 		s = "int unknown_family;\n";
 	}
@@ -262,6 +327,20 @@ static const std::vector<StressFam> &stress_fams() {
 		{"strings", {1, 33, 300}, false},
 		{"longcomment", {255, 256, 4096, 100000}, false},
 		{"structmembers", {1, 32, 33, 65, 500}, false},
+		{"macrorepl", {0, 1, 2, 3, 4, 5, 6, 7, 10, 11, 12, 13, 23, 24, 25, 26, 49, 50, 51, 52, 101, 102, 103, 300}, true},
+		{"strparts", {1, 9, 10, 11, 20, 21, 22, 42, 43, 100}, false},
+		{"ctxdepth", {1, 7, 8, 9, 15, 16, 17, 31, 32, 33, 64}, true},
+		{"objmacros", {1, 31, 32, 33, 64, 65, 129, 300}, true},
+		{"params", {0, 1, 6, 7, 8, 9, 32, 33, 100}, false},
+		{"escapes", {1, 10, 255, 256, 4096}, false},
+		{"errident", {1, 40, 55, 63, 64, 65, 255, 256, 5000}, false},
+		{"errstring", {1, 40, 55, 63, 64, 65, 255, 256, 5000}, false},
+		{"errnumber", {1, 40, 55, 63, 64, 65, 255, 5000}, false},
+		{"errundeclared", {1, 63, 64, 255, 256, 5000}, false},
+		{"errmacroargs", {1, 2, 3, 33}, true},
+		{"stringize", {1, 255, 256, 257, 511, 512, 513, 600, 4096, 100000}, true},
+		{"eofpragma", {0, 1, 10}, false},
+		{"eofdirective", {0, 1, 2, 3, 4, 5, 6, 7, 8, 9, 10, 11, 12, 13, 14, 15, 16, 17, 18}, true},
 	};
 	return f;
 }
@@ -309,7 +388,7 @@ static void perturb_schedule(Plan &p, Rng &r, bool invocation) {
 	p.io_seed = r.next();
 	p.trip_seed = r.next();
 	if (invocation) {
-		if (p.files.size() == 1 && r.coin(1, 3)) p.via_stdin = true;
+		if (p.files.size() == 1 && r.coin(1, 3)) { p.via_stdin = true; p.stdin_pipe = r.coin(1, 2); }
 		if (r.coin(1, 3)) p.dash_o = true;
 		if (r.coin(1, 2)) p.stack_shift = 16 * (int)(1 + r.below(4096));
 	}
@@ -559,7 +638,13 @@ static Verdict evaluate(const Plan &p, const Outcome &o, const Ref &ref, const s
 		return v;
 	}
 	if (p.prop == "C20") {
-		if (ref.r.kind != K_EXIT) return v;  // the reference itself is abnormal: C19's business
+		if (ref.r.kind != K_EXIT && r.kind != K_EXIT) return v;  // abnormal under every schedule: C19's business
+		if (ref.r.kind != K_EXIT) {
+			v.cls = "C20/status-differs";
+			v.sig = "status reference-abnormal";
+			v.detail = std::string("reference run ended abnormally (") + kind_name[ref.r.kind] + " " + ref.r.msg + "); perturbed run: " + o.signature;
+			return v;
+		}
 		if (r.fired & F_TRIPWIRE) {
 			// an environment query is not a violation by itself; dependence on it shows as a difference below
 		}
@@ -638,7 +723,8 @@ static Plan minimise(Plan p, const Verdict &want) {
 	// drop faults one at a time
 	for (size_t i = 0; i < p.faults.size();) { Plan t = p; t.faults.erase(t.faults.begin() + i); if (!attempt(t)) i++; }
 	// reset each policy to null
-	{ Plan t = p; t.via_stdin = false; attempt(t); }
+	{ Plan t = p; t.via_stdin = false; t.stdin_pipe = false; attempt(t); }
+	{ Plan t = p; t.stdin_pipe = false; attempt(t); }
 	{ Plan t = p; t.dash_o = false; bool needs = false; for (auto &f : t.faults) if (f.seam == "freopen") needs = true; if (!needs) attempt(t); }
 	{ Plan t = p; t.stack_shift = 0; attempt(t); }
 	{ Plan t = p; t.placement = 0; attempt(t); }
@@ -831,7 +917,7 @@ int main(int argc, char **argv) {
 		if (p.zero_policy) st.axes["malloc(0)=NULL"]++;
 		if (p.chunk) st.axes["chunk=" + std::to_string(p.chunk)]++;
 		if (p.outbuf) st.axes["outbuf=" + std::to_string(p.outbuf)]++;
-		if (p.via_stdin) st.axes["stdin"]++;
+		if (p.via_stdin) st.axes[p.stdin_pipe ? "stdin(pipe)" : "stdin(file)"]++;
 		if (p.dash_o) st.axes["-o"]++;
 		if (p.stack_shift) st.axes["stack-shift"]++;
 		if (p.files.size() > 1) st.axes["multi-file"]++;
